@@ -39,7 +39,7 @@ ASSUMPTIONS = [
     'a message element with no children at all (not schema-valid) may classify as its class or as UnknownMosFileType',
     'damaged texts on which ElementTree raises something other than ParseError are not generated',
 ]
-MANDATORY = ['filter:error', 'source:bytes', 'source:file', 'encoding:latin1', 'encoding:utf16', 'encoding:utf16be', 'ea-shape:unlisted', 'ea-shape:listed',
+MANDATORY = ['decorated', 'utf8-bom', 'filter:error', 'source:bytes', 'source:file', 'encoding:latin1', 'encoding:utf16', 'encoding:utf16be', 'ea-shape:unlisted', 'ea-shape:listed',
              'ea-op:unknown', 'ea-op:missing', 'ea-source:absent', 'malformed', 'unknown-root',
              'nested-decoy', 'envelope-permuted', 'plain-tag']
 
@@ -113,6 +113,8 @@ def classify(text, source='str', filt='default'):
                 mo = MosFile.from_string(text)
             elif source == 'bytes':
                 mo = MosFile.from_string(text.encode('utf-8'))
+            elif source == 'bytes:utf8bom':
+                mo = MosFile.from_string(b'\xef\xbb\xbf' + text.encode('utf-8'))
             elif source.startswith('bytes:'):
                 mo = MosFile.from_string(encoded(text, source.split(':')[1]))
             else:
@@ -159,9 +161,38 @@ def rejudge(case):
     return judge_doc(case)
 
 
+def decorate(text, k):
+    """Harmless XML around / inside the document: comments, a processing instruction, an XML
+    declaration - none of them may influence the classification."""
+    root_end = text.index('>') + 1 if not text.startswith('<?xml') else None
+    if k % 4 == 0 or root_end is None:
+        return '<?xml version="1.0"?>\n<!-- exported -->\n' + text + '\n<!-- end -->\n'
+    if k % 4 == 1:
+        return text[:root_end] + '<!-- roCreate roDelete roElementAction -->' + text[root_end:]
+    if k % 4 == 2:
+        return '<?xml-stylesheet type="text/xsl" href="mos.xsl"?>' + text[:root_end] + '<?pi roStorySend?>' + text[root_end:]
+    return text + '\n\n'
+
+
 def record_doc(col, text, classes, sources=('str', 'bytes', 'file'), filters=('default', 'error'),
                encodings=True):
     sources = list(sources)
+    if encodings and expected(text) not in (None, {'MosInvalidXML'}):
+        k = h64(text) % 8
+        if k < 4:
+            # a decorated twin: same expected outcome (ElementTree drops comments and PIs)
+            deco = decorate(text, k)
+            try:
+                if expected(deco) == expected(text):
+                    for source in ('str', 'bytes', 'file'):
+                        case = {'doc': deco, 'source': source, 'filter': 'default'}
+                        col.record(case, True, list(classes) + ['decorated', f'source:{source}'], judge_doc(case),
+                                   key=h64(deco, source))
+            except Exception:
+                pass
+        if k == 5:
+            case = {'doc': text, 'source': 'bytes:utf8bom', 'filter': 'default'}
+            col.record(case, True, list(classes) + ['utf8-bom'], judge_doc(case), key=h64(text, 'bom'))
     if encodings:
         # the same document in a declared ISO-8859-1 / UTF-16 encoding, from bytes and from a file
         for enc in ENCODINGS:
